@@ -9,6 +9,7 @@ import Rcgen.Model.Ctor
 import Rcgen.Model.Error
 import Rcgen.Model.Spki
 import Rcgen.Model.PemParse
+import Rcgen.Model.CsrVerify
 import Rcgen.Spec.Validate
 /- line-protocol driver: one request per line, one response per line -/
 namespace Driver
@@ -296,10 +297,16 @@ def handle (op : String) (args : List Sexp) : R Sexp := do
         match importCa crypto c with
         | .ok p => pure (.list [.atom "ok", encParams p])
         | .error e => pure (.list [.atom "err", .atom (errName e)])
-  | "parse-csr", [cfg, p521, sigok, der] => do
+  | "parse-csr", [cfg, p521, tp, own, der] => do
+    -- the two verifiers' answers come from the harness (x509-parser's verify_signature; the back
+    -- end's ECDSA P-521 / SHA-512 verification of the key octets as they stand); which of them
+    -- counts is the model's decision
     let crypto := (← cfg.asAtom) != "nocrypto"
-    let ok ← sigok.asBool
-    match parseCsr (← p521.asBool) crypto (fun _ _ _ _ => ok) (← der.asBytes) with
+    let tpv : ThirdPartyVerdict ← match ← tp.asAtom with
+      | "ok" => pure .ok | "unsupported" => pure .unsupportedAlgorithm | "failed" => pure .failed
+      | s => throw s!"bad verdict {s}"
+    let ownv ← own.asBool
+    match parseCsrWith (← p521.asBool) crypto (fun _ _ _ _ => tpv) (fun _ _ _ => ownv) (← der.asBytes) with
     | .ok r => pure (.list [.atom "ok", encParams r.params,
         .list [.atom "key", .atom (algName r.key.alg), ofBytes r.key.raw]])
     | .error e => pure (.list [.atom "err", .atom (errName e)])
